@@ -82,6 +82,9 @@ func CheckC12(c C12Case, rec *Rec) error {
 	if depth >= 3 {
 		rec.Class("depth >= 3")
 	}
+	if len(c.Net.OutOrder) > 0 {
+		rec.Class("output list in another order than the node list")
+	}
 	if c.Net.ViaGenome {
 		rec.Class("network expressed from a genome")
 	} else {
